@@ -82,6 +82,21 @@ def components(env, **cfg):
         for n in sf.out_names:
             env.eq("C09", "ScaleFromPG: %s == (Fx / B^4, Fy / B^3, Fz / B^3)%s" % (n, tag), go[n] * np.array([B ** 4, B ** 3, B ** 3], dtype=object if env.sym else float),
                    gi[n.replace("_w_frame", "_pg")])
+    # the same on live components last evaluated at another Mach number or with other forces / geometry
+    from .c16 import runs
+    for lab, go in runs(env, "sf", sf.factory, gi):
+        if not lab:
+            continue
+        for n in sf.out_names:
+            env.eq("C09", "ScaleFromPG: %s == (Fx / B^4, Fy / B^3, Fz / B^3)%s" % (n, lab), go[n] * np.array([B ** 4, B ** 3, B ** 3], dtype=object if env.sym else float),
+                   gi[n.replace("_w_frame", "_pg")])
+    for lab, so in runs(env, "st", st.factory, si):
+        if not lab:
+            continue
+        for n in st.out_names:
+            if "normals" in n or "rotational_velocities" in n:
+                continue
+            env.eq("C09", "ScaleToPG: %s: y and z stretched by B = sqrt(1 - M^2)%s" % (n, lab), so[n], si[n.replace("_pg", "_w_frame")] * stretch)
 
 
 @job("c09.pipeline", ("C09",), cfgs=[dict(nx=2, ny=3, symmetry=True, side="left", nsurf=1), dict(nx=2, ny=2, symmetry=False, nsurf=1),
